@@ -49,6 +49,10 @@ CHECKS = {
             "Delivery / creation / write monitors against a 10-line reference rule written from the statement, over a sweep of configurations (known/block lists disjoint, overlapping, empty, with/without explicit HGI, second HGI, gateway block-listed, enforcement on/off, the 'enforced but empty' rule) x packets of the three address shapes with src/dst from every id class, on a real port Gateway (fake serial + virtual air) and a real file Gateway: messages seen by an application handler, devices created (incl. ids only *named* in a 000C payload), and frames that reach the serial port from async_send_cmd().",
             "Reference rule is the oracle; only packets the decoder accepts on their own are used; the hard-wired 01:000001 id is never generated; 'refused though allowed' is judged only when the refusal text names the device filter.",
             "reference-rule differential monitor over configuration x packet sweeps on the real gateway stacks", "§3 C10"),
+    "C13": ("exploration",
+            "Views-never-raise + engine-still-runs monitors on real gateways (file-sourced, fed through the real transport's receive function, and a port gateway on a fake serial port with sending enabled) over packet histories derived from the recorded logs by deletion, duplication, windowed reordering, splicing with other systems' / HVAC / binding logs and field mutation inside the schema regexes (extreme values), eavesdropping on/off: every public view of the gateway and of each device/system/zone/DHW is read every k-th packet; get_state() and _restore_cached_packets() (own snapshot, corrupted snapshot, restored twice, cancelled half-way) are invoked at seeded points and - returned or raised - must leave the engine as found (not paused, same handler, same read-only and discovery flags), a marker packet put on the wire afterwards must be handled end-to-end and a command must reach the serial port; after foreign traffic the known controller must still be a system, keep its zones and report a fresh zone temperature.",
+            "Histories are re-timed to increasing unique timestamps; the marker is a 30C9 from a thermostat id no log uses; exceptions reaching the loop handler from deferred entity handlers are recorded, not judged; the port gateway runs with the library's own duty-cycle debug switch on (C11's subject).",
+            "views-never-raise / engine-state / marker-packet monitors over mutated real histories", "§3 C13"),
     "C19": ("exploration",
             "Reference-model monitor: a simulated controller log (unique increasing timestamps, up to 64 deep) drives the real FaultLog inside a real Evohome of a real Gateway through the dispatcher with real I|0418 / RP|0418 packets built as text; after every step the public views are compared with the model (strictly newest-first, no entry at two positions, no invented/altered entry, views never raise; equality with the controller's log after an uninterrupted read-through; push-down by one on an unsolicited announcement). A second part runs the real get_faultlog() of a port gateway against the simulated controller (start/limit variations, null-entry replies).",
             "Equality is demanded only after a read-through with nothing changing meanwhile; RP null entries carry no index (documented), so feed-only read-throughs end at the last real entry; one recorded finding (gap-absorbing announcement, pinned by the repo's own test).",
